@@ -106,7 +106,7 @@ pub fn gen_op(rng: &mut Rng, n: usize, len: usize, allow_forget: bool) -> Op {
         22 => Op::TruncateBack(rnd_index(rng, len, n)),
         23 => Op::TruncateFront(rnd_index(rng, len, n)),
         24..=25 => Op::Extend(small_k(rng)),
-        26 => Op::ExtendHinted(small_k(rng), 1 + rng.below(3) as u8),
+        26 => Op::ExtendHinted(small_k(rng), 1 + rng.below(4) as u8),
         27..=29 => Op::ExtendFromSlice(small_k(rng)),
         30..=32 => {
             let r = rnd_range(rng, len);
